@@ -27,17 +27,20 @@ def menus(tier):
     T = tier == "thorough"
     ns = (0, 1, 2, 3) + ((33,) if T else ())
     pairs = ((0, 1), (1, 2), (2, 3), (1, 3)) + (((2, 1), (0, 0)) if T else ())
-    str_len = [(n,) for n in ns] + [(n, E) for n in ns] + [(E, n) for n in ns] + list(pairs)
+    # ((1, 2),) / ((),): ONE wrong-typed argument that is a tuple - rejected in every order, and in
+    # the same way (a message built with % formatting chokes on a tuple operand)
+    str_len = [(n,) for n in ns] + [(n, E) for n in ns] + [(E, n) for n in ns] + list(pairs) \
+        + [((1, 2),), ((),)]
     lst_len = [(n,) for n in (0, 1, 2, 3)] + [(n, E) for n in (0, 1, 2)] + [(E, n) for n in (1, 2, 3)] \
-        + [(1, 2), (1, 3)]
+        + [(1, 2), (1, 3), ((1, 2),), (E, ())]
     return {
-        "int": {"refs": {"min": [(0,), (7,), (-1,), (8,)], "max": [(0,), (7,), (-1,), (8,)]},
+        "int": {"refs": {"min": [(0,), (7,), (-1,), (8,), ((1, 2),)], "max": [(0,), (7,), (-1,), (8,), ((),)]},
                 "values": [None, 0, 7] + ([True] if T else [])},
         # 1.49 / 1.51 differ from the value 1.5 only beyond precision 1; 1.46 rounds to 1.5
         # FRESH_NAN becomes a new float('nan') object every time it is applied
         "float": {"refs": {"min": [(0.15,), (1.5,), (2.5,), (1.51,), (1.49,), (FRESH_NAN,)],
                            "max": [(0.15,), (1.5,), (2.5,), (1.49,), (1.51,), (FRESH_NAN,)],
-                           "precision": [(1,), (2,)] + ([(15,), (0,)] if T else [])},
+                           "precision": [(1,), (2,), ((1, 2),)] + ([(15,), (0,)] if T else [])},
                   "values": [None, 1.5, 0.2, 1.46]},
         # "len2" is a SECOND application of len (another form): re-declaring a length is rejected
         # whichever of the two forms comes first
